@@ -63,7 +63,7 @@ func (c10) Gen(r *Rng, tier string, run int) *Trace {
 	}
 	nt := r.Range(2, 3)
 	// swarm: a random subset of the mutator alphabet per run
-	all := []string{"Push", "Pop", "Insert", "Remove", "Replace", "Swap", "Reverse", "Reset"}
+	all := []string{"Push", "Pop", "Insert", "Remove", "Replace", "Swap", "Reverse", "Reset", "SetMutex"}
 	var alpha []string
 	for _, m := range all {
 		if r.Bool(0.6) {
